@@ -526,6 +526,43 @@ def install(ifconv=True, pred=True, merged_nmea=True, crc_ifconv=True):
 SHARED_WRITES = set()     # names of module/class level containers that were written during some path (C13 frame condition)
 
 
+import copy as _copy
+
+
+_PLAIN = (int, float, str, bytes, bool, type(None))
+
+
+def _small_plain(v, depth=0):
+    """small containers of plain values (a bookkeeping dict, a counter list): cheap to snapshot and compare on every path"""
+    if type(v) in _PLAIN:
+        return True
+    if depth > 2 or type(v) not in (dict, list, set, tuple) or len(v) > 64:
+        return False
+    if isinstance(v, dict):
+        return all(_small_plain(k, depth + 1) and _small_plain(x, depth + 1) for k, x in v.items())
+    return all(_small_plain(x, depth + 1) for x in v)
+
+
+def _plain_eq(a, b):
+    """structural equality that never touches a proxy's __eq__ (a proxy anywhere counts as a difference)"""
+    if type(a) is not type(b):
+        return False
+    if type(a) in _PLAIN:
+        return a == b
+    if isinstance(a, dict):
+        if len(a) != len(b):
+            return False
+        for (ka, va), (kb, vb) in zip(a.items(), b.items()):
+            if not _plain_eq(ka, kb) or not _plain_eq(va, vb):
+                return False
+        return True
+    if isinstance(a, (list, tuple)):
+        return len(a) == len(b) and all(_plain_eq(x, y) for x, y in zip(a, b))
+    if isinstance(a, set):
+        return all(type(x) in _PLAIN for x in a) and a == b
+    return False
+
+
 def _track_shared():
     """module-level / class-level containers that are empty (or None) at import time: the places a cache would live"""
     import sys as _sys
@@ -539,6 +576,8 @@ def _track_shared():
                 continue
             if isinstance(v, (dict, list, set, bytearray)) and len(v) == 0:
                 tracked.append((mod, k, 'empty', f"{name}.{k}"))
+            elif type(v) in (dict, list, set) and _small_plain(v):
+                tracked.append((mod, k, ('snap', _copy.deepcopy(v)), f"{name}.{k}"))
             elif v is None:
                 tracked.append((mod, k, 'none', f"{name}.{k}"))
             elif isinstance(v, type) and v.__module__ == name:
@@ -547,6 +586,8 @@ def _track_shared():
                         continue
                     if isinstance(cv, (dict, list, set, bytearray)) and len(cv) == 0:
                         tracked.append((v, ck, 'empty', f"{name}.{v.__name__}.{ck}"))
+                    elif type(cv) in (dict, list, set) and _small_plain(cv):
+                        tracked.append((v, ck, ('snap', _copy.deepcopy(cv)), f"{name}.{v.__name__}.{ck}"))
                     elif cv is None:
                         tracked.append((v, ck, 'none', f"{name}.{v.__name__}.{ck}"))
     return tracked
@@ -584,6 +625,14 @@ def reset_shared():
             if isinstance(v, (dict, list, set, bytearray, SymBytes)) and len(v) > 0:
                 SHARED_WRITES.add(qual)
                 v.clear()
+        elif isinstance(kind, tuple):
+            if not _plain_eq(v, kind[1]):
+                SHARED_WRITES.add(qual)
+                if type(v) is type(kind[1]):
+                    v.clear()
+                    (v.update if isinstance(v, (dict, set)) else v.extend)(_copy.deepcopy(kind[1]))
+                else:
+                    setattr(owner, k, _copy.deepcopy(kind[1]))
         elif v is not None:
             SHARED_WRITES.add(qual)
             setattr(owner, k, None)
